@@ -377,15 +377,28 @@ Definition unquote (j : str) : str :=
   | [] => j
   end.
 Definition chk_C18_u_unjson (j : str) (out : res N) : verdict :=
-  V (nres_eqb (uint_of_json j) out)
+  V (nres_eqb (uint_of_json_esc j) out)
     (match out with
-     | Ok n => let s := unquote j in negb (match s with [] => true | _ => false end) && forallb is_digit s && (denote s =? n)
-     | Err _ => true end) false (is_ok out).
+     | Ok n => match json_decode_esc j with
+               | Ok s => forallb is_digit s && (denote s =? n)      (* as for from_str: the empty text is read as 0 (pinned by the repository's own tests for the decimal type; recorded as a non-finding) *)
+               | Err _ => false end
+     (* a refusal needs a reason: the document is malformed, or the text it denotes (escapes resolved) is no numeral in range *)
+     | Err _ => match json_decode_esc j with
+                | Ok s => negb (forallb is_digit s) || (W256 <=? denote s)
+                | Err _ => true end
+     end) false (is_ok out).
 Definition chk_C18_d_unjson (j : str) (out : res N) : verdict :=
-  V (nres_eqb (dec_of_json j) out)
+  V (nres_eqb (dec_of_json_esc j) out)
     (match out with
-     | Ok v => match denote_dec (unquote j) with Some x => x =? v | None => false end
-     | Err _ => true end) false (is_ok out).
+     | Ok v => match json_decode_esc j with
+               | Ok s => match denote_dec s with Some x => x =? v | None => false end
+               | Err _ => false end
+     | Err _ => match json_decode_esc j with
+                | Ok s => match denote_dec s with
+                          | Some x => existsb (fun p => W256 <=? denote p) (split_dot s []) || (W256 <=? x)
+                          | None => true end
+                | Err _ => true end
+     end) false (is_ok out).
 (* widths *)
 Definition chk_C18_d_to_cwdec (v : N) (out : res N) : verdict :=
   mk (dec256_to_cwdec v) out (eoa_b out (v <? W128) (fun r => r =? v)).
